@@ -8,6 +8,13 @@ the loaded module proxy `os` / `shutil` / `subprocess` objects whose makedirs / 
 check_call raise at the commanded point; pipeline-side crashes by telling the fake to exit
 non-zero after k publications.  The operator removes a directory when (and only when) the
 script's error message names it, and reruns.
+
+Every run is a sequence of INVOCATIONS of main(): the harness never decides how many calls of run_next_* an invocation
+makes - the script's own while-loop does.  Before each invocation the operator model (Runner.op_screen, the same function as
+Model/Orchestrate.op_screen) picks the --screen file from what the output directory shows: retrospective always screens/0/exp.h5,
+prospective screens/<q>/exp.h5 with q = completed steps // batch size (a new screen per batch, the same one for a rerun
+inside a batch).  The log compared with the model is [[operator screen, [one item per call], end] per invocation]; a launch
+item shows which operator screen its command line names.
 """
 import importlib.machinery
 import importlib.util
@@ -28,17 +35,24 @@ SCRIPT = os.environ.get("C19_SCRIPT") or os.path.join(common.REPO, "nextflow", "
 FAKE_DIR = os.path.join(os.path.dirname(os.path.abspath(__file__)), "fake_nextflow")
 FAKE = os.path.join(FAKE_DIR, "nextflow")
 
-RULE = ("kinds: run (mode, batch size 1-4, 3-6 plates, crash schedule = one entry per call of run_next_*: number of "
+RULE = ("Every run is driven per INVOCATION of the real main(): the operator model picks the --screen file of each invocation "
+        "from the output directory (prospective: screen number = completed steps // batch size, a different path and content per "
+        "number; retrospective: always number 0), main() is left to decide by itself when to stop; the log compared with the model "
+        "is the list of invocations [operator screen, calls with the screen number each launch reads, end = returned / did not "
+        "return / schedule exhausted].  "
+        "kinds: run (mode, batch size 1-4, 3-6 plates, crash schedule = one entry per call of run_next_*: number of "
         "events executed before the crash [0 before rmtree, 1 after it, 2 between the two directory levels of makedirs, "
         "3 before the launch, 4+p after p published files] and the publication priority order; all single crash points "
         "x data-dependence-respecting orders; pairs of crash points exhaustively for the small configurations in the "
-        "thorough tier and sampled otherwise) through the real main() with the fake nextflow, launch log + final tree "
-        "compared with Model/Orchestrate.script_run and judged against the crash-free run of the real script; "
+        "thorough tier and sampled otherwise; prospective sessions over three batches with one to three crashes) through the real "
+        "main() with the fake nextflow, invocation log + final tree compared with Model/Orchestrate.script_session and judged "
+        "against the crash-free run of the real script (incl.: each step reads the operator screen the never-interrupted execution "
+        "gives it; no prospective invocation launches steps of two iterations); "
         "run-repaired (the same with the one-line repair applied to an in-memory copy of the script, model parameter "
         "fixed=1); async (orders that violate data dependence: correspondence only, outside the property's quantifier); "
         "examine (random trees with gaps, unsorted / two-digit indices, missing markers, empty iteration directories "
         "against examine_output_dir_to_determine_current_iteration); crash_free (closed-form ideal run against the real "
-        "uninterrupted run).  Non-trivial: at least one crash or a non-empty tree; distinct by case description.")
+        "uninterrupted run: ONE invocation = n launches + one returning call / exactly batch-size launches, then main() returns).  Non-trivial: at least one crash or a non-empty tree; distinct by case description.")
 THEOREMS = {
     "C19_resume_correct": "marker last + repaired examine (or batch size 1): after EVERY crash schedule, in both modes, the completed steps with the "
                           "commands that produced them and their recorded selections are exactly the first k steps of the uninterrupted run (retrospective: k <= n_plates)",
@@ -49,6 +63,20 @@ THEOREMS = {
     "C19_uninterrupted_is_crash_free": "the closed form crash_free is what script_run produces without crashes (prospective: one invocation = one batch, batch <= plates)",
     "C19_inputs_from_predecessor": "in the uninterrupted retrospective run every step after the first reads the advanced screen of its immediate predecessor",
     "C19_step_of_successor": "step indices advance lexicographically without gaps",
+    "C19_session_is_script_run": "a session (script_run cut into invocations of main(): calls repeated while the previous one returned True) has the same final tree and the "
+                                 "same calls in the same order as script_run: all theorems above speak about sessions",
+    "C19_invocation_never_crosses_batch": "same hypotheses as C19_resume_correct, EVERY crash schedule: each launch (step s, by an invocation given operator screen r, command l) is a launch of the "
+                                          "never-interrupted execution with ITS screen: (s, r, l) = ideal_stamped c (prospective: step (i, j) always reads operator screen i); prospective: all launches "
+                                          "of one invocation have iteration index = the screen index the operator supplied at its start - an invocation never crosses a batch boundary",
+    "C19_operator_screen_is_current_iteration": "on every reachable tree the operator's screen index (completed steps div batch size) is the iteration examine is about to work on, or the iteration of the directory it names",
+    "C19_uninterrupted_prospective_session": "never-interrupted prospective execution of q batches (batch <= plates): q invocations, invocation k is given screen k, makes exactly batch-size calls and returns; "
+                                             "its launches are ideal_stamped 0..q*bs-1 (step c reads screen c div bs)",
+    "C19_invocation_finishes_batch_and_stops": "prospective, from ANY reachable tree with c completed steps on which the script does not name a directory: an uninterrupted invocation makes exactly bs - c mod bs "
+                                               "calls (bs from a batch boundary, bs - j after an interruption at plate j), all successful launches of steps c.. to the end of the batch, returns, leaves the rest of the schedule",
+    "C19_retro_call_returns_false_iff_no_plates_remain": "retrospective, ANY tree: a call of run_next_retrospective_step returns False iff examine reads back a last completed step whose n_unobserved_plates <= 0",
+    "C19_retro_invocation_stops_iff_finished": "retrospective, reachable trees, any schedule: an invocation that returns has completed exactly the n steps of the never-interrupted run and every earlier call of it was a "
+                                               "successful launch (never stops before); once all n steps are complete every invocation is one returning call that changes nothing",
+    "C19_uninterrupted_retrospective_invocation": "never-interrupted retrospective invocation: n successful launches (the ideal commands) then one call that returns False; completed = crash_free",
     "C19_resume_refuted_empty_iter": "REFUTED for the examine of /repo today: batch size 2, crash between the two makedirs levels -> a completed step is deleted and launched again",
     "C19_resume_refuted_marker_early": "REFUTED without marker_last even with the repair: prospective mode, metadata published first (data dependence allows it) -> step without selection counts as complete",
 }
@@ -61,8 +89,15 @@ ASSUMPTIONS = [
     "the <name> directory level, the work directory and files the script never globs for are abstracted away",
     "the operator removes exactly the directory named in 'Consider deleting this directory to continue simulation: <dir>' and reruns; on any other error he just reruns",
     "glob order of plate_*/*/selected_plate is not modelled: the exclude list is compared as a set",
+    "operator model (prospective): the screen file passed to an invocation is a function of the output directory at its start - screen number = number of completed steps "
+    "(directories holding screen_metadata.json) div batch size, i.e. a new screen once a whole batch is marked complete, the same screen for a rerun inside a batch; "
+    "retrospective: always the same file.  The screens' content is abstract in the model (all list the same plates); the harness's files differ in path and in a field the fake ignores",
+    "an invocation ends when run_next_* returns False, raises, or is interrupted; what the process exit status is used for by the operator is not modelled beyond 'rerun'",
 ]
-EXPLANATION = ("Model: Model/Orchestrate.v.  The theorems are proved for the script WITH the one-line repair of examine (model parameter fixed=true) or batch "
+EXPLANATION = ("Model: Model/Orchestrate.v (calls: attempt/script_run; invocations of main(): call_returns/invocation/op_screen/script_session).  "
+               "The invocation-level theorems (C19_invocation_*, C19_retro_*, C19_uninterrupted_*) say when main() stops and which operator screen every launch reads; the harness "
+               "checks the same two things on the real main() (clauses wrong-operator-screen, invocation-crosses-batch) and compares the invocation log exactly.  "
+               "The theorems are proved for the script WITH the one-line repair of examine (model parameter fixed=true) or batch "
                "size 1, and for publication orders in which screen_metadata.json is last; the two refuted statements show that each hypothesis is needed "
                "and are replayed on the real script by this harness.  Which variant the real script corresponds to is probed at start-up (PROBED_FIXED).")
 
@@ -240,15 +275,41 @@ class Runner:
         self.mod = load_script(variant)
         self.tmp = _tmpdir()
         self.out = os.path.join(self.tmp, "out")
-        self.inp = os.path.join(self.tmp, NAME + ".h5")
-        with open(self.inp, "w") as f:
-            json.dump({"unobserved": list(range(n))}, f)
+        self.scr_dir = os.path.join(self.tmp, "screens")   # the operator's screen files: screens/<index>/exp.h5
+        self.scr_re = re.compile(re.escape(self.scr_dir) + r"/(-?\d+)/" + re.escape(NAME) + r"\.h5")
+        self.scr_made = {}
         self.fakelog = os.path.join(self.tmp, "fake.log")
-        self.log = []        # items comparable with the model's log
+        self.log = []        # one item per call of run_next_* (flat)
+        self.ilog = []       # the same items grouped per invocation of main(): [operator screen, [items], end]
+        self.cur_inv = None
         self.events = []     # chronological observations for the property predicate
         self.by = {}
         self.cur_k, self.cur_order, self.cur_logged = FULL, CANON, True
         self.invocations = 0
+
+    # -- the operator: which screen file an invocation is given, as a function of the output directory
+    def op_screen(self):
+        """retrospective: always the same file; prospective: a new file per batch - the operator hands over screen q
+        when q batches' worth of steps are complete (Model/Orchestrate.op_screen)"""
+        if self.mode != "prospective":
+            return 0
+        return len(marked(scan(self.out))) // self.bs
+
+    def screen_path(self, r):
+        p = self.scr_made.get(r)
+        if p is None:
+            p = os.path.join(self.scr_dir, str(r), NAME + ".h5")
+            os.makedirs(os.path.dirname(p), exist_ok=True)
+            with open(p, "w") as f:
+                json.dump({"unobserved": list(range(self.n)), "operator_screen": r}, f)
+            self.scr_made[r] = p
+        return p
+
+    def screen_index(self, p):
+        if not getattr(self, "scr_dir", None) or not isinstance(p, str):
+            return None
+        m = self.scr_re.fullmatch(p)
+        return int(m.group(1)) if m else None
 
     # -- helpers
     def step_of_path(self, p):
@@ -256,15 +317,19 @@ class Runner:
         return (int(m.group(1)), int(m.group(2))) if m else None
 
     def sp(self, p):
-        if p == self.inp:
-            return [0]
+        r = self.screen_index(p)
+        if r is not None:
+            return [0, r]      # the operator's screen number r
         m = re.fullmatch(re.escape(self.out) + r"/iter_(-?\d+)/plate_(-?\d+)/" + NAME + r"/(.*)", p or "")
         if m and m.group(3) in FILES:
             return [1, int(m.group(1)), int(m.group(2)), FILES.index(m.group(3))]
         return [9, str(p)]
 
     def norm(self, a):
-        return str(a).replace(self.out, "$OUT").replace(self.inp, "$IN")
+        a = str(a)
+        if self.scr_dir in a:
+            a = self.scr_re.sub(lambda m: "$IN" + m.group(1), a)
+        return a.replace(self.out, "$OUT")
 
     def context(self, sc):
         return dict(empty_iters=[i for i, pls in sc if not pls],
@@ -273,6 +338,8 @@ class Runner:
 
     def emit(self, item):
         self.log.append(item)
+        if self.cur_inv is not None:
+            self.cur_inv[1].append(item)
         self.cur_logged = True
 
     def note_delete(self, path, who):
@@ -324,7 +391,9 @@ class Runner:
                     inputs[key] = open(o[key]).read()
                 except OSError:
                     inputs[key] = None
-        ev = dict(type="launch", step=list(s) if s else None, argv=[self.norm(a) for a in cmd], inputs=inputs)
+        ev = dict(type="launch", step=list(s) if s else None, argv=[self.norm(a) for a in cmd], inputs=inputs,
+                  inv=self.invocations, given=self.cur_inv[0] if self.cur_inv else None,
+                  screen_arg=self.screen_index(o.get("--screen")))
         ev.update(self.context(sc))
         self.events.append(ev)
         env = {"FAKE_NF_LOG": self.fakelog, "FAKE_NF_ORDER": ",".join(KINDS[k] for k in self.cur_order),
@@ -386,16 +455,23 @@ class Runner:
         mod.os = _Proxy(os, makedirs=self._makedirs)
         mod.shutil = _Proxy(shutil, rmtree=self._rmtree)
         mod.subprocess = _Proxy(subprocess, check_call=self._check_call)
-        sys.argv = ["batchie.py", "--screen", self.inp, "--batch-size", str(self.bs), "--mode", self.mode, "--outdir", self.out]
         try:
             while self.pos < len(self.sched):
                 pos0 = self.pos
                 self.invocations += 1
+                # one invocation of the script; the operator picks the screen file from what the output directory shows
+                r = self.op_screen()
+                self.cur_inv = [r, [], 1]      # end: 0 main() returned, 1 it did not (interruption / exception), 2 schedule exhausted
+                self.ilog.append(self.cur_inv)
+                sys.argv = ["batchie.py", "--screen", self.screen_path(r), "--batch-size", str(self.bs), "--mode", self.mode,
+                            "--outdir", self.out]
                 try:
                     mod.main()
                     if not self.cur_logged:
                         self.emit([1])
+                    self.cur_inv[2] = 0
                 except StopRun:
+                    self.cur_inv[2] = 2
                     break
                 except Crash:
                     self.emit([2, self.cur_k])
@@ -426,8 +502,9 @@ class Runner:
                     break
         finally:
             mod.os, mod.shutil, mod.subprocess, sys.argv = saved
+        self.cur_inv = None
         tree = read_tree(self.out)
-        self.final = [[i, [[j, pd + [opt(self.by.get((i, j)))]] for j, pd in pls]] for i, pls in tree]
+        self.final = [[i, [[j, pd + [opt(unstamp(self.by.get((i, j))))]] for j, pd in pls]] for i, pls in tree]
         ev = dict(type="end")
         ev.update(self.context(scan(self.out)))
         self.events.append(ev)
@@ -438,6 +515,14 @@ class Runner:
 
     def close(self):
         shutil.rmtree(self.tmp, ignore_errors=True)
+
+
+def unstamp(l):
+    """launch as kept in the tree's ghost field: the operator's screen without its number (the numbers are in the log)"""
+    if l is None:
+        return None
+    where = {0: (1,), 1: (1, 2), 2: (1,), 3: (1,)}.get(l[0], ())
+    return [[0] if t in where and isinstance(x, list) and len(x) == 2 and x[0] == 0 else x for t, x in enumerate(l)]
 
 
 def run_schedule(mode, bs, n, sched, spawn=False, variant="real", single=False):
@@ -462,11 +547,13 @@ def crash_free_ref(mode, bs, n, L, variant="real"):
     if key not in _cf_cache:
         r = run_schedule(mode, bs, n, [[FULL, CANON]] * (L if mode == "prospective" else n + 1), spawn=False, variant=variant)
         launches = {}
+        screens = {}
         for ev in r.events:
             if ev["type"] == "launch":
                 launches[tuple(ev["step"])] = (ev["argv"], ev["inputs"])
+                screens[tuple(ev["step"])] = ev["screen_arg"]
         sel = {(i, j): pd[4] for i, pls in r.final for j, pd in pls if pd[6]}
-        _cf_cache[key] = dict(launches=launches, sel=sel, n_done=len(sel))
+        _cf_cache[key] = dict(launches=launches, screens=screens, sel=sel, n_done=len(sel))
     return _cf_cache[key]
 
 
@@ -474,6 +561,7 @@ def judge(mode, bs, n, sched, run, cf):
     """-> list of (clause, text, context) in chronological order; empty = the property holds on this run"""
     fails = []
     ever = set()
+    iters_of_inv = {}
     for ev in run.events:
         t = ev["type"]
         if t == "delete":
@@ -484,6 +572,20 @@ def judge(mode, bs, n, sched, run, cf):
         elif t == "launch":
             s = tuple(ev["step"]) if ev["step"] else None
             mk = [tuple(x) for x in ev["marked"]]
+            if s is not None and ev.get("screen_arg") is not None:
+                # the operator screen this step reads in the execution that is never interrupted (prospective: iteration i
+                # is run entirely with the operator's screen number i)
+                want_r = cf["screens"].get(s, s[0] if mode == "prospective" else 0)
+                if ev["screen_arg"] != want_r:
+                    fails.append(("wrong-operator-screen", "step %s launched with the operator's input screen #%s; the never-interrupted "
+                                  "execution gives it screen #%s" % (s, ev["screen_arg"], want_r), ev))
+            if mode == "prospective" and s is not None:
+                seen = iters_of_inv.setdefault(ev.get("inv"), [])
+                if seen and s[0] not in seen:
+                    fails.append(("invocation-crosses-batch", "invocation #%s (given the operator's screen #%s) launched step %s after steps of "
+                                  "iteration %s: one invocation ran into the next batch" % (ev.get("inv"), ev.get("given"), s, seen), ev))
+                if s[0] not in seen:
+                    seen.append(s[0])
             if s in ever:
                 fails.append(("completed-step-reexecuted", "step %s, completed earlier, is executed again" % (s,), ev))
             if sorted(mk) != [step_of(bs, c) for c in range(len(mk))] or s != step_of(bs, len(mk)):
@@ -520,10 +622,25 @@ def judge(mode, bs, n, sched, run, cf):
     return fails
 
 
+INVOCATION_CLAUSES = ("wrong-operator-screen", "invocation-crosses-batch")
+
+
+def lead_failure(fails):
+    """the failure a run is reported under: an invocation-boundary clause is never folded into another finding"""
+    for f in fails:
+        if f[0] in INVOCATION_CLAUSES:
+            return f
+    return fails[0]
+
+
 def classify(mode, fails):
     if not fails:
         return None
-    clause, _, ev = fails[0]
+    clause, _, ev = lead_failure(fails)
+    if clause in INVOCATION_CLAUSES:
+        # kept apart from the runs in which a marker was published before the selection, so that a run free of the known
+        # finding is reported as the counterexample whenever there is one
+        return "other:%s:%s%s" % (clause, mode, ":marker-published-early" if ev.get("marker_early") else "")
     if ev.get("marker_early") and mode == "prospective":
         return "prospective-marker-before-selection"
     if ev.get("marker_early"):
@@ -641,6 +758,18 @@ def gen(rng, tier):
         T = total_steps(m, bs, n)
         cr = [(rng.randint(0, 2), rng.randint(0, 11), rng.choice(orders_for(m))) for _ in range(rng.randint(3, 5))]
         yield dict(kind="run", mode=m, bs=bs, n=n, sched=mk_sched(T, cr), spawn=False)
+    # prospective sessions over three batches (the operator hands over three different screens), one to three crashes anywhere
+    for _ in range(40 if quick else 800):
+        bs = rng.choice([1, 2, 2, 3, 3, 4])
+        n = rng.randint(max(bs, 3), 6)
+        T = 3 * bs
+        cr = []
+        left = T
+        for _ in range(rng.randint(1, 3)):
+            gap = rng.randint(0, max(left - 1, 0))
+            left -= gap
+            cr.append((gap, rng.randint(0, 8), rng.choice(orders_for("prospective")[:1] * 3 + orders_for("prospective"))))
+        yield dict(kind="run", mode="prospective", bs=bs, n=n, sched=mk_sched(T, cr, tail=2), spawn=False)
     # orders outside the quantifier (violate data dependence): correspondence only
     for _ in range(60 if quick else 600):
         m, bs, n = rng.choice(configs)
@@ -688,10 +817,11 @@ def norm_launch(l):
 
 
 def norm_model_run(m):
-    fs, log = m
+    """model output of op 4: [tree, [[operator screen, [log items], end] per invocation]]"""
+    fs, recs = m
     fs = sorted([i, sorted([j, pd[:7] + [[norm_launch(x) for x in pd[7]]]] for j, pd in pls)] for i, pls in fs)
-    log = [[4, g[1], g[2], norm_launch(g[3]), g[4], g[5]] if g[0] == 4 else g for g in log]
-    return [fs, log]
+    recs = [[r, [[4, g[1], g[2], norm_launch(g[3]), g[4], g[5]] if g[0] == 4 else g for g in calls], end] for r, calls, end in recs]
+    return [fs, recs]
 
 
 def cmp_run(m, i):
@@ -703,7 +833,8 @@ def cmp_run(m, i):
     if mm[1] != i[1]:
         for t, (a, b) in enumerate(zip(mm[1] + [None] * len(i[1]), i[1] + [None] * len(mm[1]))):
             if a != b:
-                return "log differs at call %d: model %s impl %s" % (t, common.short(a), common.short(b))
+                return ("invocation %d differs (operator screen, calls with the screen each launch reads, end 0 returned / 1 did not / "
+                        "2 schedule exhausted): model %s impl %s" % (t, common.short(a, 700), common.short(b, 700)))
     if mm[0] != i[0]:
         return "final tree differs: model %s impl %s" % (common.short(mm[0], 900), common.short(i[0], 900))
     return None
@@ -716,7 +847,7 @@ def run(desc):
         variant = "repaired" if k == "run-repaired" else "real"
         fixed = 1 if k == "run-repaired" else probed_fixed()
         r = run_schedule(mode, bs, n, sched, spawn=desc.get("spawn", False), variant=variant)
-        impl = [r.final, r.log]
+        impl = [r.final, r.ilog]
         pred = None
         sig = None
         feats = [k, mode, "bs=%d" % bs]
@@ -735,9 +866,14 @@ def run(desc):
             fails = judge(mode, bs, n, sched, r, cf)
             if fails:
                 sig = classify(mode, fails)
-                pred = "%s [%s]; %d clause failures in this run; first: %s" % (fails[0][1], sig, len(fails), fails[0][0])
+                lead = lead_failure(fails)
+                pred = "%s [%s]; %d clause failures in this run; first: %s" % (lead[1], sig, len(fails), lead[0])
                 feats.append("fails:" + sig)
-        wire = [1, MODES.index(mode), fixed, bs, n, [], [[kk, o] for kk, o in sched]]
+        if len(r.ilog) > 1:
+            feats.append("invocations>=2")
+        if len({rec[0] for rec in r.ilog}) > 1:
+            feats.append("operator-screens>=2")
+        wire = [4, MODES.index(mode), fixed, bs, n, [], [[kk, o] for kk, o in sched]]
         return dict(wire=wire, impl=impl, pred=pred, features=feats, cmp=cmp_run, sig=sig)
     if k == "crash_free":
         mode, bs, n = desc["mode"], desc["bs"], desc["n"]
@@ -747,6 +883,14 @@ def run(desc):
         want = n if mode == "retrospective" else bs
         if len(impl) != want or any(not pd[6] for _, pd in impl):
             pred = "uninterrupted run completed %d steps, expected %d" % (len(impl), want)
+        else:
+            # the invocation boundary: one uninterrupted invocation = n launches and one call that returns False
+            # (retrospective) / exactly batch-size launches (prospective), then main() returns
+            rec = r.ilog[0] if len(r.ilog) == 1 else None
+            calls = [g[0] for g in rec[1]] if rec else None
+            want_calls = [4] * n + [1] if mode == "retrospective" else [4] * bs
+            if rec is None or rec[2] != 0 or calls != want_calls or rec[0] != 0:
+                pred = "uninterrupted invocation: expected screen #0, calls %s, main() returns; got %s" % (want_calls, common.short(r.ilog))
 
         def cmpf(m, i):
             mm = [[s, pd[:7] + [[norm_launch(x) for x in pd[7]]]] for s, pd in m] if not isinstance(m, str) else m
@@ -761,7 +905,7 @@ def run(desc):
             try:
                 ni, np_, meta, scr = mod.examine_output_dir_to_determine_current_iteration(d, bs)
                 r0 = Runner.__new__(Runner)
-                r0.out, r0.inp = d, None
+                r0.out, r0.scr_dir = d, None
                 impl = [0, [ni, np_, opt(None if meta is None else meta["n_unobserved_plates"]), opt(None if scr is None else r0.sp(scr))]]
             except RuntimeError as e:
                 m = re.search(r"Consider deleting this directory to continue simulation: (.*)$", str(e))
